@@ -19,6 +19,7 @@ import (
 	"github.com/idena-network/idena-go/config"
 	"github.com/idena-network/idena-go/core/appstate"
 	"github.com/idena-network/idena-go/core/mempool"
+	"github.com/idena-network/idena-go/core/state"
 	"github.com/idena-network/idena-go/core/upgrade"
 	"github.com/idena-network/idena-go/crypto"
 	"github.com/idena-network/idena-go/keystore"
@@ -62,6 +63,9 @@ type Node struct {
 	LastApplied *appstate.AppState
 	// Collector, when set, is handed to AddBlock instead of the default no-op collector.
 	Collector collector.StatsCollector
+	SM        *state.SnapshotManager
+	KeyStore  *keystore.KeyStore
+	SubMgr    *subscriptions.Manager
 }
 
 // CloneConfig deep-copies what the node mutates (Upgrader changes cfg.Consensus in place).
@@ -139,7 +143,11 @@ func (n *Node) start() error {
 	if err != nil {
 		return err
 	}
+	n.KeyStore, n.SubMgr = keyStore, subManager
+	cfg.DataDir = filepath.Join(n.Dir, fmt.Sprintf("data%d", n.ID))
+	os.MkdirAll(cfg.DataDir, 0755)
 	n.Chain = blockchain.NewBlockchain(cfg, n.Disk, n.Pool, app, n.Ipfs, n.Sec, n.Bus, n.OD, keyStore, subManager, n.Upg)
+	n.SM = state.NewSnapshotManager(n.Disk, app.State, n.Bus, n.Ipfs, cfg)
 	n.Props, _ = pengings.NewProposals(n.Chain, app, n.OD, n.Upg, sc)
 	n.Chain.UseMiddleware(func(block *types.Block, a *appstate.AppState) { n.LastApplied = a })
 
